@@ -101,6 +101,13 @@ def baseline_tree_hashes(suites):
 
 def write_baseline(suite, src=None):
     out = driver.run([suite], timeout_ms=10000, src=src, quiet=False, unit_limit_s=900)
+    broken = ['%s (%s)' % (r['unit'], str(r.get('error') or r.get('timeout') or r.get('unsupported'))[:200])
+              for r in out['results'] if r.get('error') or r.get('timeout') or r.get('unsupported')]
+    if broken:
+        # a baseline records what is provable on the unchanged tree: a unit that crashed or timed out would silently
+        # drop its obligations from it
+        print('baseline %s NOT written: unit(s) without a result: %s' % (suite, ', '.join(broken)))
+        return 3
     ids = sorted({o['id'] for r in out['results'] for o in r['obligations'] if o['status'] == 'discharged'})
     bad = sorted({o['id'] for r in out['results'] for o in r['obligations'] if o['status'] != 'discharged'})
     os.makedirs(os.path.join(ROOT, 'baseline'), exist_ok=True)
@@ -121,6 +128,7 @@ PROP_BOUNDED = {
     'C06': 'harness/c06_bounded.py',
     'C08': 'harness/c08_bounded.py',
     'C09': 'harness/c09_drain.py',
+    'C18': 'harness/c18_agent.py',
     'C10': 'harness/bp_scenarios.py --prop C10',
     'C11': 'harness/bp_scenarios.py --prop C11',
     'C12': 'harness/bp_scenarios.py --prop C12',
@@ -249,7 +257,7 @@ def main(argv=None):
     # (no reuse, fewer processes, twice the solver budget) so that a time-out under load is not mistaken
     # for a failed proof
     known = load_known()
-    shaky = sorted({r['function'] for r in results if r.get('timeout') or any(
+    shaky = sorted({r['function'] for r in results if r.get('timeout') or r.get('error') or any(
         o['status'] != 'discharged' and match_known(known, prop, o['id']) is None for o in r['obligations'])})
     retried = []
     if shaky:
